@@ -20,7 +20,8 @@ ALLT = ["dict", "DictArithmetic", "QUBO", "PUBO", "PCBO", "QUBOMatrix", "PUBOMat
 def FLOORS(tier):
     q = tier == "quick"
     f = {"symbolic-values": 100 if q else 5000, "normalize-method": 300, "subvalue-method": 300, "subgraph-method": 300,
-         "complete-assignment": 100, "empty-assignment": 60}
+         "complete-assignment": 100, "empty-assignment": 60, "plain-polynomial:subvalue": 60,
+         "plain-polynomial:subgraph": 60}
     for fn in ("subvalue", "subgraph", "normalize"):
         for t in ALLT:
             f["%s:%s" % (fn, t)] = 40 if q else 1500
@@ -51,8 +52,80 @@ def build(rng, tn, kind):
     return m, labs
 
 
+def plain_case(ctx, rng):
+    """plain dict / DictArithmetic do not squash keys: a key is a multiset of labels and the model an ordinary polynomial
+    (x*x stays x*x).  subvalue / subgraph must multiply a substituted label in once per occurrence."""
+    from collections import Counter
+    tn = rng.choice(["dict", "DictArithmetic"])
+    labs = gen.labels(rng, rng.randint(1, 4))
+    terms = {}
+    for _ in range(rng.randint(1, 5)):
+        k = tuple(rng.choice(labs) for _ in range(rng.randint(0, 4)))      # repeats allowed
+        terms[k] = terms.get(k, 0) + rng.choice(gen.DYADIC)
+    terms = {k: v for k, v in terms.items() if v}
+    if not terms:
+        return
+    m = dict(terms) if tn == "dict" else L.utils.DictArithmetic(terms)
+    snap = dict(m)
+    fn = rng.choice(["subvalue", "subgraph"])
+    ctx.cat("plain-polynomial:" + fn)
+    vals = {x: rng.choice([0, 1, -1, 2, 0.5]) for x in rng.sample(labs, rng.randint(0, len(labs)))}
+    w = {"function": fn, "type": tn, "terms": snap, "values": vals, "class": "plain-polynomial (repeated labels)"}
+
+    def canon(d):
+        out = Counter()
+        for k, v in d.items():
+            out[tuple(sorted(k, key=repr))] += frac(v)
+        return {k: v for k, v in out.items() if v}
+    if fn == "subvalue":
+        ok, r = ctx.call("subvalue", L.utils.subvalue, vals, m, _w=w) if rng.random() < 0.5 or tn == "dict" else \
+            ctx.call("subvalue", m.subvalue, vals, _w=w)
+        exp = Counter()
+        for k, v in snap.items():
+            c = frac(v)
+            rest = []
+            for x in k:
+                if x in vals:
+                    c *= frac(vals[x])
+                else:
+                    rest.append(x)
+            exp[tuple(sorted(rest, key=repr))] += c
+    else:
+        nodes = set(rng.sample(labs, rng.randint(0, len(labs))))
+        w["nodes"] = nodes
+        ok, r = ctx.call("subgraph", L.utils.subgraph, m, nodes, vals, _w=w)
+        exp = Counter()
+        for k, v in snap.items():
+            if not k:
+                continue
+            c = frac(v)
+            rest = []
+            for x in k:
+                if x in nodes:
+                    rest.append(x)
+                else:
+                    c *= frac(vals.get(x, 0))
+            exp[tuple(sorted(rest, key=repr))] += c
+    if not ok:
+        return
+    if dict(m) != snap:
+        ctx.violation(fn + ":argument-mutated", "argument changed", w)
+        return
+    if type(r) is not type(m):
+        ctx.violation(fn + ":result-type", "%s in -> %s out" % (type(m).__name__, type(r).__name__), w)
+        return
+    exp = {k: v for k, v in exp.items() if v}
+    if canon(r) != exp:
+        ctx.violation(fn + ":function-changed:plain-polynomial", "got %r expected %r" % (dict(r), {k: float(v) for k, v in exp.items()}), w)
+        return
+    if len(snap) >= 2 and vals:
+        ctx.nontrivial(("plain", fn, tn, sorted(snap.items(), key=repr), sorted(vals.items(), key=repr)))
+
+
 def case(ctx, rng, idx):
     import sympy
+    if rng.random() < 0.12:
+        return plain_case(ctx, rng)
     tn = rng.choice(ALLT)
     kind = kind_of_name(tn, rng)
     m, labs = build(rng, tn, kind)
